@@ -286,3 +286,46 @@ def gen_malformed(rng: random.Random) -> str:
         else:
             s[i] = rng.choice(MALFORMED_ALPHA)
     return "".join(s)
+
+
+# ---- a deterministic family: every kind of block as the first (and as a later) block of every kind of container, and the escapes that
+# only matter at the start of a continuation line.  These run in every check that uses them, whatever the random stream does. ----
+def systematic_docs() -> list[str]:
+    inner = {
+        "para": ["some text here"],
+        "heading": ["## heading text"],
+        "fence": ["```py", "code", "", "more code", "```"],
+        "tilde-fence": ["~~~", "a", "", "b", "~~~"],
+        "quote": ["> quoted", "> text"],
+        "alert": ["> [!NOTE]", "> hello there"],
+        "list": ["- x", "- y"],
+        "olist": ["1. x", "2. y"],
+        "table": ["| a | b |", "|---|---|", "| 1 | 2 |"],
+        "rule": ["***"],
+        "indented": ["    indented code", "", "    more"],
+    }
+    outer = {
+        "item": ("- ", "  "),
+        "oitem": ("1. ", "   "),
+        "oitem10": ("10. ", "    "),
+        "quote": ("> ", "> "),
+        "footnote": ("[^n]: ", "    "),
+        "item-in-quote": ("> - ", ">   "),
+        "quote-in-item": ("- > ", "  > "),
+    }
+    docs = []
+    for oname, (p1, p2) in outer.items():
+        for iname, lines in inner.items():
+            if oname == "footnote" and iname == "indented":
+                continue
+            first = [p1 + lines[0]] + [(p2 + l).rstrip() if not l else p2 + l for l in lines[1:]]
+            later = [p1 + "first para", p2.rstrip()] + [(p2 + l) if l else p2.rstrip() for l in lines]
+            tail = ["", "after"] if oname != "footnote" else []
+            head = ["note[^n] text", ""] if oname == "footnote" else []
+            docs.append("\n".join(head + first + [p2.rstrip(), p2 + "second para"] + tail) + "\n")
+            docs.append("\n".join(head + later + tail) + "\n")
+    for esc in ["1\\.", "1945\\.", "12\\)", "\\-", "\\+", "\\#", "\\>", "\\*", "\\_\\_\\_", "\\=\\=", "\\`\\`\\`", "\\~\\~\\~"]:
+        docs.append("some words come first\n" + esc + " and the rest of it\n")
+        docs.append("- some words come first\n  " + esc + " and the rest of it\n")
+        docs.append("> some words come first\n> " + esc + " and the rest\\\n> " + esc + " after a hard break\n")
+    return docs
